@@ -158,6 +158,7 @@ func (gw *inclusiveGateway) run(ctx context.Context, sender tracing.ISenderHandl
 						// and now we wait until the probe has returned
 					}
 				} else {
+					gw.flowTracker.noteArrival(m.flow.Id())
 					if gw.activated == nil {
 						// Haven't been activated yet
 						gw.activated = &flowSync{response: m.response, flow: m.flow}
@@ -238,7 +239,10 @@ type flowTracker struct {
 	shutdownCh chan bool
 	stopped    chan struct{}
 	queries    chan cohortQuery
+	arrivals   chan id.Id
 	flows      map[id.Id]schema.Id
+	announced  map[id.Id]int // per flow: flow traces seen that lead it into the node
+	arrived    map[id.Id]int // per flow: arrivals the node has reported
 	activityCh chan struct{}
 	element    *schema.InclusiveGateway
 }
@@ -260,7 +264,10 @@ func newFlowTracker(tracer tracing.ITracer, element *schema.InclusiveGateway) *f
 		shutdownCh: make(chan bool),
 		stopped:    make(chan struct{}),
 		queries:    make(chan cohortQuery),
+		arrivals:   make(chan id.Id),
 		flows:      make(map[id.Id]schema.Id),
+		announced:  make(map[id.Id]int),
+		arrived:    make(map[id.Id]int),
 		activityCh: make(chan struct{}, 1),
 		element:    element,
 	}
@@ -310,10 +317,18 @@ func (tracker *flowTracker) run() {
 			}
 		}
 		if reachedNode {
+			// A flow can be at the node (again, in a loop) before the flow trace that sent it there
+			// has been delivered here: its question is answered once that trace has been taken in,
+			// not from the picture of its previous visit.
+			behind := waiting[:0]
 			for _, q := range waiting {
-				q.reply <- tracker.cohort(q.flowId)
+				if tracker.announced[q.flowId] >= tracker.arrived[q.flowId] {
+					q.reply <- tracker.cohort(q.flowId)
+				} else {
+					behind = append(behind, q)
+				}
 			}
-			waiting = nil
+			waiting = behind
 			if notify {
 				// tell the node about the activity
 				select {
@@ -336,6 +351,8 @@ func (tracker *flowTracker) run() {
 		case q := <-tracker.queries:
 			// answered at the top of the loop, after the pending traces have been taken in
 			waiting = append(waiting, q)
+		case flowId := <-tracker.arrivals:
+			tracker.arrived[flowId]++
 		case <-tracker.shutdownCh:
 			for _, q := range waiting {
 				q.reply <- nil
@@ -353,13 +370,11 @@ func (tracker *flowTracker) handleTrace(trace tracing.ITrace, reachedNode bool) 
 	switch t := trace.(type) {
 	case FlowTrace:
 		for _, snapshot := range t.Flows {
-			// If we haven't reached the node
-			if !reachedNode {
-				// Try and see if this flow is the one that goes into it
-				targetId := snapshot.SequenceFlow().TargetRef()
-				if idPtr, present := tracker.element.Id(); present {
-					reachedNode = *idPtr == *targetId
-				}
+			// See if this flow is one that goes into the node
+			targetId := snapshot.SequenceFlow().TargetRef()
+			if idPtr, present := tracker.element.Id(); present && *idPtr == *targetId {
+				reachedNode = true
+				tracker.announced[snapshot.Id()]++
 			}
 			if idPtr, present := t.Source.Id(); present {
 				_, ok := tracker.flows[snapshot.Id()]
@@ -379,6 +394,14 @@ func (tracker *flowTracker) handleTrace(trace tracing.ITrace, reachedNode bool) 
 
 func (tracker *flowTracker) shutdown() {
 	close(tracker.shutdownCh)
+}
+
+// noteArrival tells the tracker that flowId has arrived at the node
+func (tracker *flowTracker) noteArrival(flowId id.Id) {
+	select {
+	case tracker.arrivals <- flowId:
+	case <-tracker.stopped:
+	}
 }
 
 func (tracker *flowTracker) activeFlowsInCohort(flowId id.Id) (result []id.Id) {
